@@ -1,0 +1,17 @@
+//go:build verif
+
+package openapi3filter
+
+// C15 (sufficient condition): no function on the traffic path writes memory that concurrent
+// validations share - the loaded document, the router, package-level variables - other than
+// through sync types. Discharged by the call-graph scan (preserves); see DESIGN.md 4/C15.
+// The per-call types excluded from "all(openapi3)" are declared with `class other` in
+// openapi3/verif_contracts_lookup.go.
+
+//@ func ValidateResponse
+//@   modifies *
+//@   preserves @C14 Validator.strict, Validator.errFunc, Validator.logFunc, Validator.router, strictResponseWrapper.*, warnResponseWrapper.*, bytes.Buffer.*, []byte
+//@   preserves @C14 handlerCalls, errCalls, cliHdr, cliCode, cliBody
+//@   preserves @C15 all(openapi3), all(routers), all(gorillamux), all(legacy), all(pathpattern)
+//@   preserves @C15 globals(openapi3), globals(openapi3filter), globals(routers), globals(gorillamux), globals(legacy), globals(pathpattern)
+//@   records respOK := (result == nil)
